@@ -54,6 +54,12 @@ ASSUMPTIONS = [
     "the fresh names of the real FormulaManager as the names of the result that do not occur in the input and "
     "matches them one-to-one with the model's",
     "generated binder lists are duplicate-free (the theorems do not need it)",
+    "public routes (shortcuts.qelim / Factory.qelim with solver_name in {name, None} and logic in {None, AUTO, BOOL, "
+    "detected}; the walker classes; the module functions with the default environment) must return what the "
+    "direct call returns (prenex: up to fresh names); Factory.qelim may refuse (NoSolverAvailableError, "
+    "NoLogicAvailableError) a formula "
+    "with theory atoms when no logic or a non-Boolean logic is given, since both eliminators declare logic BOOL; "
+    "logic=None, logic=AUTO and the detected logic given explicitly must agree",
 ]
 
 COST_LIMIT = 30000       # node evaluations of the exact evaluator per chk_equiv request
@@ -397,7 +403,9 @@ class Gen10:
     def qe_block(self):
         m, r = self.m, self.rng
         k = r.choice([3, 3, 4])
-        vs = r.sample([self.qb, self.qc, self.p, self.q, self.r], k)
+        # binder variables that occur in no atom: self-substitution copies the body once per occurrence of the
+        # variable, so occurrences inside shared atoms would blow the (tree-walking) model up
+        vs = r.sample([self.qb, self.qc] + [m.Symbol("qd%d" % i_, BOOL) for i_ in range(3)], k)
         target = [r.random() < 0.75 for _ in vs]              # mostly "true": the late assignments
         lits = [v if b else m.Not(v) for v, b in zip(vs, target)]
         free = self.atom([])
@@ -516,6 +524,138 @@ def run_impl(env, proc, f):
     except (PysmtException, AssertionError, TypeError, KeyError, ValueError, AttributeError, RecursionError) as e:
         return ("err", type(e).__name__, str(e)[:200])
     raise ValueError(proc)
+
+
+# ------------------------------------------------------------------------------------------- public routes
+ERRS = (PysmtException, AssertionError, TypeError, KeyError, ValueError, AttributeError, RecursionError)
+
+
+def pure_bool(f):
+    """only Boolean symbols, constants, connectives, Boolean ite and quantifiers (logic BOOL)"""
+    seen, stack = set(), [f]
+    while stack:
+        n = stack.pop()
+        if n.node_id() in seen:
+            continue
+        seen.add(n.node_id())
+        if n.is_symbol():
+            if not n.symbol_type().is_bool_type():
+                return False
+        elif not (n.is_bool_constant() or n.is_bool_op() or n.is_ite()):
+            return False
+        stack.extend(n.args())
+    return True
+
+
+def routes_for(proc, f):
+    """the other public ways to reach the procedure; a route is a '|'-separated descriptor"""
+    if proc in ("shannon", "selfsub"):
+        names = [proc] + (["None"] if proc == "shannon" else [])    # the preference list ends with shannon, selfsub
+        return ["%s|%s|%s" % (e, nm, lg) for e in ("shortcuts.qelim", "factory.qelim") for nm in names
+                for lg in ("None", "AUTO", "BOOL", "detected")]
+    if proc in ("nnf", "aig", "prenex"):
+        return ["class", "module-default-env"]
+    if proc == "propagate":
+        return ["module-default-env"]
+    return []
+
+
+def run_route(env, proc, f, route):
+    """-> like run_impl, through the route"""
+    import pysmt.rewritings as rw
+    import pysmt.shortcuts as sc
+    import pysmt.logics as lg_
+    import pysmt.oracles
+    try:
+        if proc in ("shannon", "selfsub"):
+            entry, nm, lg = route.split("|")
+            name = None if nm == "None" else nm
+            logic = {"None": None, "AUTO": lg_.AUTO, "BOOL": lg_.BOOL}.get(lg)
+            if lg == "detected":
+                logic = pysmt.oracles.get_logic(f, env)
+            fn = sc.qelim if entry == "shortcuts.qelim" else env.factory.qelim
+            return ("ok", fn(f, solver_name=name, logic=logic))
+        if route == "class":
+            if proc == "nnf":
+                return ("ok", rw.NNFizer(env).convert(f))
+            if proc == "aig":
+                return ("ok", rw.AIGer(env).convert(f))
+            if proc == "prenex":
+                return ("ok", rw.PrenexNormalizer(env).normalize(f))
+        if route == "module-default-env":
+            if proc == "nnf":
+                return ("ok", rw.nnf(f))
+            if proc == "aig":
+                return ("ok", rw.aig(f))
+            if proc == "prenex":
+                return ("ok", rw.prenex_normal_form(f))
+            if proc == "propagate":
+                return ("ok", rw.propagate_toplevel(f, do_simplify=False))
+    except ERRS as e:
+        return ("err", type(e).__name__, str(e)[:200])
+    raise ValueError((proc, route))
+
+
+def same_outcome(proc, f, a, b):
+    if a[0] != b[0]:
+        return False
+    if a[0] == "err":
+        return a[1] == b[1]
+    if a[1] is b[1]:
+        return True
+    if proc == "prenex":          # two calls draw different fresh names
+        ok, _why = same_up_to_fresh(wire.dec_term(wire.enc_term(a[1])), wire.dec_term(wire.enc_term(b[1])),
+                                    set(all_symbols(f)))
+        return ok
+    return False
+
+
+def route_verdict(proc, f, route, direct, got):
+    """None when the route's outcome is acceptable, otherwise what is wrong"""
+    if same_outcome(proc, f, direct, got):
+        return None
+    if proc in ("shannon", "selfsub") and route.split("|")[2] != "BOOL" and not pure_bool(f) \
+            and got[0] == "err" and got[1] in ("NoSolverAvailableError", "NoLogicAvailableError"):
+        # the eliminators declare logic BOOL only: the factory refuses a formula of another logic, or one for
+        # which the logic detection (C13) finds no logic
+        return None
+    return "differs from the direct call"
+
+
+def check_routes(ctx, env, proc, f, direct, routes, rd, ef):
+    """runs the routes; reports; -> [(route, result)] of the deviating routes that returned a formula"""
+    bad, got_by = [], {}
+    for route in routes:
+        got = run_route(env, proc, f, route)
+        got_by[route] = got
+        ctx.count("route_" + proc + "_" + "_".join(route.split("|")[:1]))
+        why = route_verdict(proc, f, route, direct, got)
+        if why is None:
+            ctx.count("route_refused" if got[0] == "err" and direct[0] == "ok" else "route_same")
+            continue
+        show = lambda r_: semantic.readable(r_[1], 300) if r_[0] == "ok" else repr(r_)[:300]
+        ctx.report_s(sig_for(proc, "route", f, {"route": route}),
+                     "%s through %s %s: %s  ==>  %s  (direct call: %s)" % (proc, route, why, rd[:200], show(got),
+                                                                          show(direct)),
+                     {"proc": proc, "formula": rd, "term": ef, "route": route, "history": None,
+                      "impl": show(got), "direct": show(direct)})
+        if got[0] == "ok":
+            bad.append((route, got))
+    # logic=None and logic=AUTO (and the detected logic given explicitly) mean the same
+    for route, got in got_by.items():
+        parts = route.split("|")
+        if len(parts) == 3 and parts[2] in ("AUTO", "detected"):
+            base = "|".join(parts[:2] + ["None"])
+            if base in got_by and not same_outcome(proc, f, got_by[base], got):
+                show = lambda r_: semantic.readable(r_[1], 300) if r_[0] == "ok" else repr(r_)[:300]
+                ctx.report_s(sig_for(proc, "route-logic", f, {"route": route}),
+                             "qelim with logic=%s and with logic=None disagree (%s): %s  ==>  %s  vs  %s" % (
+                                 parts[2], route, rd[:200], show(got), show(got_by[base])),
+                             {"proc": proc, "formula": rd, "term": ef, "route": route, "base_route": base,
+                              "history": None, "impl": show(got), "direct": show(got_by[base])})
+            else:
+                ctx.count("route_logic_agree")
+    return bad
 
 
 def all_symbols(f):
@@ -668,6 +808,9 @@ def generate(ctx, env, n_each):
         cases.append(("nnf", f))
         cases.append(("aig", f))
         cases.append(("prenex", f))
+        if i % 4 == 0:
+            for proc_ in ("nnf", "aig", "prenex"):
+                cases.append((proc_, f, None, None, routes_for(proc_, f)))
         if r.random() < 0.5:
             cases.append(("nnf", g.m.Not(f)))
             cases.append(("prenex", g.m.Not(f)))
@@ -687,6 +830,15 @@ def generate(ctx, env, n_each):
             b = (g.m.Exists if r.random() < 0.5 else g.m.ForAll)([g.qb], g.m.Iff(b, g.m.Or(g.qb, g.atom([g.qb]))))
         cases.append(("shannon", b))
         cases.append(("selfsub", b))
+        # ... and through shortcuts.qelim / Factory.qelim; quantifiers below connectives, theory atoms sometimes
+        rb = r.choice([b, b, g.m.Not(b), g.m.And(g.bool_leaf([]), b), g.m.Implies(b, g.m.Not(b)),
+                       g.m.Or(g.atom([]), b)])
+        for proc_ in ("shannon", "selfsub"):
+            rs = routes_for(proc_, rb)
+            pick = r.choice(rs)
+            e_, nm_, _lg = pick.split("|")
+            cases.append((proc_, rb, None, None,
+                          ["%s|%s|%s" % (e_, nm_, lg) for lg in ("None", "AUTO", r.choice(["BOOL", "detected"]))]))
         if r.random() < 0.3:
             cases.append(("nnf", b))
             cases.append(("aig", b))
@@ -705,7 +857,10 @@ def generate(ctx, env, n_each):
             qb_ = g.qe_block()
             cases.append(("shannon", qb_))
             cases.append(("selfsub", qb_))
-        cases.append(("propagate", g.propagate_input()))
+        pi = g.propagate_input()
+        cases.append(("propagate", pi))
+        if i % 4 == 0:
+            cases.append(("propagate", pi, None, None, routes_for("propagate", pi)))
     return cases
 
 
@@ -783,20 +938,40 @@ def process(ctx, env, cases, record=True):
     model_lines, sem_lines = [], []
     work = []
     n_int = 5 if ctx.tier == "quick" else 8
-    for idx, case in enumerate(cases):
+    cases = list(cases)       # route cases append the deviating results
+    idx = -1
+    while idx + 1 < len(cases):
+        idx += 1
+        case = cases[idx]
         proc, f = case[0], case[1]
         try:
             ef = wire.enc_term(f)
         except wire.OutOfFragment:
             ctx.count("out_of_fragment")
             continue
+        routes = case[4] if len(case) > 4 else None
+        if routes:
+            # the same procedure through its other public routes: the outcome of the direct call is the reference;
+            # a deviating result goes through all the S oracles below, as the result of this case
+            direct = run_impl(env, proc, f)
+            for route, got in check_routes(ctx, env, proc, f, direct, routes, semantic.readable(f, 600), ef):
+                cases.append((proc, f, got, None, None, route))
+            continue
         # a case may carry the result computed earlier, in the environment (history) it was generated for
-        res = case[2] if len(case) > 2 else run_impl(env, proc, f)
+        res = case[2] if len(case) > 2 and case[2] is not None else run_impl(env, proc, f)
         item = {"proc": proc, "f": f, "ef": ef, "res": res, "idx": idx,
-                "hist": case[3] if len(case) > 3 else None}
-        # ---- K request
+                "hist": case[3] if len(case) > 3 else None, "route": case[5] if len(case) > 5 else None}
+        # ---- K request (the model works on trees: skip results whose tree is huge, they are DAGs in Python)
         item["k"] = len(model_lines)
-        model_lines.append(request_line(proc, f))
+        if item["route"]:
+            item["k_skip"] = True       # K compares the model with the direct call
+            model_lines.append("echo T 1 boolConst b 1 0")
+        elif res[0] == "ok" and proc in ("selfsub", "shannon") and eval_cost(res[1]) > 400000:
+            item["k_skip"] = True
+            ctx.count("k_skipped_tree_size_" + proc)
+            model_lines.append("echo T 1 boolConst b 1 0")
+        else:
+            model_lines.append(request_line(proc, f))
         # ---- S requests
         outs = []      # (label, FNode to compare with f)
         if res[0] == "ok":
@@ -866,7 +1041,7 @@ def process(ctx, env, cases, record=True):
         if res[0] == "err":
             ctx.count("impl_raised_%s_%s" % (proc, res[1]))
         rep = {"proc": proc, "formula": rd, "term": item["ef"], "request": model_lines[item["k"]],
-               "history": item["hist"],
+               "history": item["hist"], "route": item["route"],
                "impl": (semantic.readable(res[1], 600) if res[0] == "ok" and proc not in ("conj", "disj")
                         else repr(res)[:600])}
         if len(ctx.samples) < 6 and changed and ctx.rng.random() < 0.02:
@@ -924,6 +1099,8 @@ def process(ctx, env, cases, record=True):
         a = model_ans[item["k"]]
         if a.startswith("bad-op") or a == "bad-fresh":
             ctx.infra("C10 driver rejected a request: %s :: %s" % (a[:80], rd))
+            continue
+        if item.get("k_skip"):
             continue
         if proc == "selfsub" and not fragment_ok(proc, f):
             ctx.count("k_skipped_selfsub_nonbool_binder")
@@ -997,18 +1174,20 @@ def shrink(ctx, env):
         except Exception:
             continue
         for sub in bool_subterms(env, f):
-            cands.append((key, proc, sub))
+            cands.append((key, proc, sub, v["replay"].get("route"), v["replay"].get("base_route")))
             cand_terms.setdefault(key, set()).add(wire.enc_term(sub))
     if not cands or ctx.time_left() < 30:
         return
     scratch = common.Ctx(ctx.prop, ctx.tier, ctx.seed)
     scratch.rng = ctx.rng
-    process(scratch, env, [(proc, sub) for key, proc, sub in cands])
+    process(scratch, env, [((proc, sub, None, None, [x_ for x_ in (base, route) if x_]) if route else (proc, sub))
+                           for key, proc, sub, route, base in cands])
     for key, v in firsts.items():
         best = None
         for w in scratch.s_violations:
             if w["sig"].get("proc") == v["sig"].get("proc") and w["sig"].get("oracle") == v["sig"].get("oracle") \
                     and w["sig"].get("shape") == v["sig"].get("shape") \
+                    and w["replay"].get("route") == v["replay"].get("route") \
                     and w["replay"]["term"] in cand_terms.get(key, ()):
                 if best is None or len(w["replay"]["term"]) < len(best["replay"]["term"]):
                     best = w
@@ -1155,6 +1334,19 @@ def probes(env):
     out.append(("shannon", m.Exists([qb], m.Not(qb))))
     out.append(("selfsub", m.Not(m.Exists([qb], m.Not(qb)))))
     out.append(("selfsub", m.ForAll([qb, a], m.Or(m.Not(qb), m.And(a, b)))))
+    # every public route, quantifiers below connectives (round 4: Factory.qelim looked at the top node only)
+    ex = m.Exists([qb], m.Or(qb, c))
+    fa = m.ForAll([qb], m.And(qb, b))
+    for f in [ex, m.And(b, ex), m.Not(fa), m.Implies(ex, fa), m.Iff(a, ex), m.And(a, b),
+              m.Exists([qb], m.And(qb, m.LT(x, y))), m.Or(m.LT(x, y), fa), m.Not(m.Exists([x], m.LT(x, y)))]:
+        for proc in ("shannon", "selfsub"):
+            out.append((proc, f))
+            out.append((proc, f, None, None, routes_for(proc, f)))
+    for f in [m.Not(m.Ite(a, b, c)), m.And(b, ex), m.Implies(ex, fa), m.And(m.Exists([a], m.Or(a, b)), a)]:
+        for proc in ("nnf", "aig", "prenex"):
+            out.append((proc, f, None, None, routes_for(proc, f)))
+    out.append(("propagate", m.And(m.Equals(x, y), m.LE(x, m.Int(5))), None, None,
+                routes_for("propagate", None)))
     return out
 
 
@@ -1192,7 +1384,14 @@ def replay(ctx, rep):
     print("input    :", semantic.readable(f, 2000))
     res = run_impl(env, proc, f)
     print("result   :", semantic.readable(res[1], 2000) if res[0] == "ok" and proc not in ("conj", "disj") else repr(res))
-    process(ctx, env, [(proc, f)])
+    if r.get("route"):
+        routes = [x_ for x_ in (r.get("base_route"), r["route"]) if x_]
+        for rt in routes:
+            got = run_route(env, proc, f, rt)
+            print("route %s :" % rt, semantic.readable(got[1], 2000) if got[0] == "ok" else repr(got))
+        process(ctx, env, [(proc, f, None, None, routes)])
+    else:
+        process(ctx, env, [(proc, f)])
     for v in ctx.s_violations:
         print("S:", v["what"][:400])
     for v in ctx.k_divergences:
